@@ -29,6 +29,9 @@ def signature_of(sc, vclass):
 def worker(argv):
     a = driver.parse_worker_args(argv)
     out = common.WorkerOut()
+    from . import threads
+
+    threads.install_locks()      # before the package is imported: a lock left held shows as a violation, not as a hang
     common.setup_repo_path()
     common.assert_repo_loaded()
     driver.arm_watchdog(a["budget"] * 3 + 300)
@@ -54,8 +57,8 @@ def worker(argv):
         digests.append([idx, digest_obj([res["result"], res.get("vclass"), res["log"]])])
         if res["result"] == "violation":
             nviol += 1
-            if nviol <= MAX_VIOLATIONS_REPORTED:
-                small = lifecycle.minimise(sc, res["vclass"], runner)
+            if nviol <= 1:
+                small = lifecycle.minimise(sc, res["vclass"], runner, budget=250)
                 res2 = runner.run(small)
                 out.emit({"type": "violation", "index": idx, "vclass": res["vclass"], "scenario": small,
                           "detail": res2.get("detail"), "step": res2.get("step"), "original_ops": len(sc["ops"]),
@@ -71,6 +74,9 @@ def worker(argv):
 
 def replay(payload):
     """Replay a recorded (minimised) scenario; exit 1 and print the violation if it reproduces."""
+    from . import threads
+
+    threads.install_locks()
     common.setup_repo_path()
     common.assert_repo_loaded()
     lifecycle.warmup()
